@@ -580,6 +580,7 @@ func init() {
 	}, func(e *Env) {
 		e.RLocality()
 		e.RDecs(false)
+		e.RSym()
 		e.RClone()
 		e.RClauseSym()
 		e.RHangGuard()
